@@ -21,115 +21,29 @@ EXPLANATION = (
     "asserted term the parser returns must denote what the reference says the text denotes (structurally, "
     "or by exhaustive evaluation over small domains), get_last_formula must be the conjunction of the live "
     "assertions, well-formed text handled today must stay accepted, and ill-formed text rejected today "
-    "must stay rejected (R9).  Every entry of the operator-token table maps its token to the constructor "
-    "that realises the standard's meaning (R1); the token and command tables are supersets of the sets "
-    "confirmed on this tree (R7); _reset re-initialises the state commands change (R8).")
+    "must stay rejected (R9).  Operator tokens: the token list is the reference list of spellings accepted on "
+    "the pinned tree joined with the keys of the table of a parser instance obtained by interpreting its "
+    "constructor; each token is applied to the operand tuples of a menu (Bool / Int / Real / bit-vector / String / "
+    "array operands, arity 1-3, mixed tuples), the reference reader selects the well-sorted applications (~160) "
+    "and each of them, read by the interpreted parser - table look-up, the '-' and '=' disambiguation, Int-to-Real "
+    "promotion, constructors, type check - denotes what the standard says; applications pySMT rejects with an "
+    "error on the pinned tree (chained / n-ary forms, Int division, pow) are tabled with their reason (R1).  "
+    "Commands: one script per command accepted on the pinned tree is still accepted and read as written (R7).  "
+    "A parser object used for a second script reads it exactly as a fresh parser does: logic, definitions, "
+    "let bindings, sort abbreviations and open levels of the first script are gone (R8).")
 NOT_DECIDED = ["texts outside the corpus", "leniency: four kinds of ill-formed text are accepted with their "
                "evident reading (assert of a non-Boolean term, identical redeclaration, pop below level 0, use of "
                "a symbol after the pop of its declaration); they are listed in the rule, not reported"]
 
 
-def token_table(repo):
-    """token -> ('ctor', name) | ('self', attr) | ('enter', method) as written in __init__."""
-    cls, init = repo.method(PARSER, "__init__")
-    table = {}
-    fix = {}
-    for n in ast.walk(init):
-        if isinstance(n, ast.Assign) and isinstance(n.targets[0], ast.Attribute) and \
-                isinstance(n.value, ast.Call) and attr_tail(n.value) == "partial" and len(n.value.args) == 2 \
-                and norm(n.value.args[0]) == "fix_real":
-            fix[n.targets[0].attr] = attr_tail(n.value.args[1])
-        tgt = None
-        if isinstance(n, ast.Assign):
-            tgt = n.targets[0]
-        elif isinstance(n, ast.AnnAssign):
-            tgt = n.target
-        if tgt is not None and norm(tgt) == "self.interpreted" and isinstance(n.value, ast.Dict):
-            for k, v in zip(n.value.keys, n.value.values):
-                if not isinstance(k, ast.Constant):
-                    continue
-                if isinstance(v, ast.Call) and attr_tail(v) == "_operator_adapter" and len(v.args) == 1:
-                    a = v.args[0]
-                    if isinstance(a, ast.Attribute) and norm(a.value) == "mgr":
-                        table[k.value] = ("ctor", a.attr)
-                    elif isinstance(a, ast.Attribute) and norm(a.value) == "self":
-                        table[k.value] = ("self", a.attr)
-                    else:
-                        table[k.value] = ("?", norm(a))
-                elif isinstance(v, ast.Attribute) and norm(v.value) == "self":
-                    table[k.value] = ("enter", v.attr)
-                else:
-                    table[k.value] = ("?", norm(v))
-    return table, fix
-
-
 def run(ctx):
     repo = get_repo()
     ctx.analysed["modules"] = ["pysmt/smtlib/parser/parser.py", "pysmt/smtlib/commands.py"]
-    table, fix = token_table(repo)
-    ctx.analysed["tokens"] = len(table)
 
     if ctx.want("R1"):
-        rs = ctx.rule("R1", "operator-token table maps every token to the right constructor")
-        if not table:
-            ctx.error("R1", "self.interpreted table not found")
-        for k, v in sorted(fix.items()):
-            if T.FIX_REAL.get(k) == v:
-                rs.ok({"adapter": "self.%s" % k, "wraps": "mgr.%s" % v})
-            elif k in T.FIX_REAL:
-                ctx.finding(rs, "%s.__init__|fix_real|%s" % (PARSER, k),
-                            "parser adapter self.%s wraps mgr.%s instead of mgr.%s" % (k, v, T.FIX_REAL[k]),
-                            method_loc(repo, PARSER, repo.method(PARSER, "__init__")[1]))
-        for tok, (kind, name) in sorted(table.items()):
-            want = T.TOKENS.get(tok)
-            if tok in T.SPECIAL_TOKENS:
-                if kind == "enter" and name == T.SPECIAL_TOKENS[tok]:
-                    rs.ok({"token": tok, "handler": name})
-                else:
-                    ctx.finding(rs, "%s.interpreted|%s" % (PARSER, tok), "token '%s' is handled by %s %s, expected %s"
-                                % (tok, kind, name, T.SPECIAL_TOKENS[tok]),
-                                method_loc(repo, PARSER, repo.method(PARSER, "__init__")[1]))
-                continue
-            if want is None:
-                rs.unrec("token '%s' has no reference entry (%s %s)" % (tok, kind, name))
-                continue
-            got = None
-            if kind == "ctor":
-                got = name
-            elif kind == "self":
-                if name in fix:
-                    got = fix[name]
-                else:
-                    got = "<%s>" % name.lstrip("_")
-            if got == want:
-                rs.ok({"token": tok, "constructor": got})
-            else:
-                ctx.finding(rs, "%s.interpreted|%s" % (PARSER, tok),
-                            "token '%s' is read as %s; the standard's meaning is %s" % (tok, got, want),
-                            method_loc(repo, PARSER, repo.method(PARSER, "__init__")[1]))
-        # adapters
-        cls, f = repo.method(PARSER, "_equals_or_iff")
-        txt = norm(f)
-        if "return mgr.Iff(left, right)" in txt and "return self.Equals(left, right)" in txt and "BOOL()" in txt:
-            rs.ok({"adapter": "_equals_or_iff", "bool": "Iff(left,right)", "other": "Equals(left,right)"})
-        else:
-            rs.unrec("'=' adapter not in the recognised form (decided by the interpreter rule R1b)")
-        cls, f = repo.method(PARSER, "_minus_or_uminus")
-        txt = norm(f)
-        conds = ["return self.Minus(args[0], args[1])" in txt, "mgr.Int(-1 * args[0].constant_value())" in txt,
-                 "mgr.Real(-1 * args[0].constant_value())" in txt, "return mgr.Times(mult, args[0])" in txt,
-                 "mult = mgr.Int(-1)" in txt, "mult = mgr.Real(-1)" in txt]
-        if all(conds):
-            rs.ok({"adapter": "_minus_or_uminus", "binary": "Minus(a,b)", "unary": "-1 * a (constant folded)"})
-        else:
-            rs.unrec("'-' adapter not in the recognised form %s" % conds)
-        cls, f = repo.method(PARSER, "_division")
-        txt = norm(f)
-        if "Fraction(left.constant_value()) / Fraction(right.constant_value())" in txt and "return self.Div(left, right)" in txt:
-            rs.ok({"adapter": "_division", "constants": "left/right exact", "other": "Div(left,right)"})
-        else:
-            rs.unrec("'/' adapter not in the recognised form")
-        ctx.floor(rs, 60)
+        rs = ctx.rule("R1", "every operator token, applied to operands of each sort family, is read as the standard's function (generated applications)")
+        from . import c08_tokens
+        c08_tokens.run(ctx, rs)
 
     if ctx.want("R9"):
         rs = ctx.rule("R9", "import corpus: the interpreted parser and the independent reader agree on every asserted term")
@@ -167,59 +81,18 @@ def run(ctx):
         ctx.floor(rs, 80)
 
     if ctx.want("R7"):
-        rs = ctx.rule("R7", "constructs accepted today keep being accepted (token and command sets)")
-        have = set(table)
-        for tok in sorted(set(T.TOKENS) | set(T.SPECIAL_TOKENS)):
-            if tok in ("str.to_int", "str.from_int"):
-                continue      # newer spellings, not accepted today
-            if tok in have:
-                rs.ok({"token": tok})
-            else:
-                ctx.finding(rs, "%s.interpreted|dropped|%s" % (PARSER, tok), "token '%s' is no longer accepted" % tok,
-                            method_loc(repo, PARSER, repo.method(PARSER, "__init__")[1]))
-        cls, init = repo.method(PARSER, "__init__")
-        cmds = set()
-        ce = ConstEval(repo)
-        for n in ast.walk(init):
-            if isinstance(n, ast.Assign) and norm(n.targets[0]) == "self.commands" and isinstance(n.value, ast.Dict):
-                for k in n.value.keys:
-                    try:
-                        cmds.add(ce.expr(repo.cls(PARSER).module, k))
-                    except NotConst:
-                        pass
-        for c in sorted(T.COMMANDS_ACCEPTED_TODAY):
-            if c in cmds:
-                rs.ok({"command": c})
-            else:
-                ctx.finding(rs, "%s.commands|dropped|%s" % (PARSER, c), "command '%s' is no longer accepted" % c,
-                            method_loc(repo, cls, init))
-        ctx.floor(rs, 90)
+        rs = ctx.rule("R7", "every command accepted on the pinned tree is still accepted and read as written (one script per command)")
+        from . import c08_tokens
+        c08_tokens.run_commands(ctx, rs)
 
     if ctx.want("R8"):
-        rs = ctx.rule("R8", "parser reset completeness: state changed by commands is re-initialised by _reset")
-        ci = repo.cls(PARSER)
-        reset = ci.own_func("_reset")
-        if reset is None:
-            ctx.error("R8", "SmtLibParser._reset vanished")
-        else:
-            from ..common import stores_in, is_self_attr
-            in_reset = set(t.attr for t, _ in stores_in(reset) if is_self_attr(t))
-            changed = {}
-            for nm in ci.order:
-                f = ci.own_func(nm)
-                if f is None or nm in ("__init__", "_reset"):
-                    continue
-                for t, st in stores_in(f):
-                    if is_self_attr(t):
-                        changed.setdefault(t.attr, (nm, st))
-            for attr, (nm, st) in sorted(changed.items()):
-                if attr in in_reset:
-                    rs.ok({"attribute": attr, "changed_by": nm, "reset": True})
-                else:
-                    ctx.finding(rs, "%s._reset|state-not-reset|%s" % (PARSER, attr),
-                                "%s changes self.%s (%s) but _reset does not re-initialise it: a parser object re-used for a "
-                                "second script keeps the value set by the first one" % (nm, attr, short(st)),
-                                method_loc(repo, PARSER, reset))
-            cls, gs = repo.method(PARSER, "get_script")
-        ctx.floor(rs, 1)
-
+        rs = ctx.rule("R8", "a parser object used for a second script reads it as a fresh parser does (logic, definitions, bindings, sort abbreviations of the first script are gone)")
+        from . import text_deep as td
+        for name, how, kind, detail in td.reuse_results(repo, ctx.tier):
+            if kind == "valid":
+                rs.ok({"first script": name, "second script read by": how, "result": detail})
+            elif kind == "invalid":
+                ctx.finding(rs, "reuse|%s|%s" % (name, how), "%s (%s): %s" % (name, how, detail), "pysmt/smtlib/parser/parser.py")
+            else:
+                rs.unrec("%s (%s): %s" % (name, how, detail[:160]))
+        ctx.floor(rs, 8)
